@@ -45,7 +45,8 @@ func (c05) Meta() fw.Meta {
 			"(4) the real copy / sum-copy / generate commands made to fail before their final Sync (-text-out /dev/full with > 4 KiB output, layout mismatch, corrupt source, existing destination) must leave an existing destination byte-identical; (5) every 8th history runs on a file whose second archive has a damaged (unaligned) first slot, so that updates write their point and then fail while propagating: the following Sync must still make the file equal to the handle's state. " +
 			"non-trivial = history that dirtied a page-straddling slot and had a Sync with a non-contiguous dirty-page set; distinct by (layout, clock, ops)." +
 			" Also: a handle whose Open had to wait for the lock of a handle with unsynced changes must see that handle's synced state; every 16th case writes one batch of 8200-25000 points (file bytes unchanged before Sync, equal to the handle after)." +
-			" Abandonment alternates between Close-without-Sync and dropping the handle followed by two garbage collections; every 4th history and every 3rd abandonment replay uses a handle opened WithoutFlock.",
+			" Abandonment alternates between Close-without-Sync and dropping the handle followed by two garbage collections; every 4th history and every 3rd abandonment replay uses a handle opened WithoutFlock." +
+			" Also: Sync after an abandoning Close must not return nil; a file that lost its tail is byte-identical after Open; every 8th case lets a process of uid 65534 try a session on a 0444 file (Sync may only succeed if the file was written).",
 		Assumptions: []string{
 			"'survives' means visible to any other reader of the file system; power-loss durability of fsync is not observable from inside one kernel",
 			"kills that land inside a Sync (last record sync-begin) are counted but not judged: the property speaks of points between Syncs",
